@@ -220,16 +220,17 @@ static void Array_Concat(var self, var obj) {
   
   struct Array* a = self;
   
-  size_t i = 0;
+  size_t nitems = a->nitems;
   size_t olen = len(obj);
   
   a->nitems += olen;
   Array_Reserve_More(a);
+  a->nitems = nitems;
   
   foreach (item in obj) {
-    Array_Alloc(a, a->nitems-olen+i);
-    assign(Array_Item(a, a->nitems-olen+i), item);
-    i++;
+    Array_Alloc(a, a->nitems);
+    assign(Array_Item(a, a->nitems), item);
+    a->nitems++;
   }
   
 }
@@ -328,8 +329,10 @@ static void Array_Push(var self, var obj) {
   struct Array* a = self;
   a->nitems++;
   Array_Reserve_More(a);
-  Array_Alloc(a, a->nitems-1);
-  assign(Array_Item(a, a->nitems-1), obj);
+  a->nitems--;
+  Array_Alloc(a, a->nitems);
+  assign(Array_Item(a, a->nitems), obj);
+  a->nitems++;
 }
 
 static void Array_Push_At(var self, var obj, var key) {
